@@ -11,8 +11,13 @@
        Bezout identity, Berlekamp-Massey on the remarks of pp.h (zero sequence -> 1, all-ones -> x+1) and on
        m-sequences;
      - the fixed constants of /repo/test/core/word_test.c and /repo/test/math/ww_test.c (weights, parities,
-       CTZ/CLZ, the 0x5C / 0x36 shift-with-carry cases). *)
-EXTENDS ZZ, WW, PP, TLC
+       CTZ/CLZ, the 0x5C / 0x36 shift-with-carry cases);
+     - window NAF: sequences worked out by hand from the definition in ww.h (7 = 8 - 1; 3 and 15 with the replaced suffix),
+       encoded by hand, and their forbidden variants (suffix not replaced, leading zero symbol, adjacent non-zero symbols);
+     - ring aliases: the Montgomery representation changes the order of elements (mod 7, B = 2^16: 1 -> 2, 4 -> 1),
+       halving in GF(7), membership in GF(2^8); factor base: 3 * 5 * 7 * 11 modulo the first primes, the last element
+       8167 of the library's base; prime extension: 7 = 2*3*1 + 1, 13 = 2*3*2*1 + 1 accepted, 25 = 2*3*4 + 1 refused. *)
+EXTENDS ZZ, WW, PP, QR, PriBase, TLC
 
 H(s) == From16(s)
 P61 == Sub2(PowerOf2(61), One)
@@ -115,10 +120,39 @@ VecOk(i) ==
                      wRev(wRev(<<v, 7>>)) = <<v, 7>> /\ wBitrev(wBitrev(<<v, 7>>)) = <<v, 7>> /\ wDeshuffle(wShuffle(<<v, 7, 9, 11>>)) = <<v, 7, 9, 11>>
                      /\ (v % 2 = 0 \/ IsZero(LoW(AddInt(Mul(From16(wNegInv(<<v, 7>>)), From16(<<v, 7>>)), 1), 32, 1)))
                      /\ wRotLo(wRotHi(<<v, 7>>, 5), 5) = <<v, 7>> /\ wRotHi(<<v, 0>>, 16) = <<0, v>>
+    \* ---- window NAF (ww.h).  7 = -1 + 8, w = 2: symbols (a_0..a_3) = (-1, 0, 0, 1); code from a_3: 1,0 | 0 | 0 | 1,1  = 49
+    [] i = 801 -> wwNAFOk(<<49, 0, 0>>, 4, <<7>>, 2) /\ ~wwNAFOk(<<49, 0, 0>>, 3, <<7>>, 2) /\ ~wwNAFOk(<<49, 0, 0>>, 4, <<9>>, 2)
+                  /\ wwNAFOk(<<0, 0, 0>>, 0, <<0>>, 2) /\ ~wwNAFOk(<<49, 1, 0>>, 4, <<7>>, 2)
+    \* 3 = -1 + 4 -> suffix (-1, 0, 1) is replaced by (1, 1): code 1,0 | 1,0 = 5; the unreplaced form 1,0 | 0 | 1,1 = 25 is refused
+    [] i = 802 -> wwNAFOk(<<5, 0, 0>>, 2, <<3>>, 2) /\ ~wwNAFOk(<<25, 0, 0>>, 3, <<3>>, 2)
+    \* 15 = -1 + 16, w = 4: (-1, 0, 0, 0, 1) is replaced by (7, 0, 0, 1): code 1,0,0,0 | 0 | 0 | 1,1,1,0 = 449;
+    \* unreplaced 1,0,0,0 | 0 | 0 | 0 | 1,0,0,1 = 1153 refused; (1, 1, 1, 1) (value 15, adjacent symbols) = 1,0,0,0 x 4 = 4369 refused
+    [] i = 803 -> wwNAFOk(<<449, 0, 0>>, 4, <<15>>, 4) /\ ~wwNAFOk(<<1153, 0, 0>>, 5, <<15>>, 4) /\ ~wwNAFOk(<<4369, 0, 0>>, 4, <<15>>, 4)
+    \* 2^16 + 5, w = 3: (-3, 0, 0, 1, 0.., 1) with 5 = -3 + 8: code of a_16 = 1: 1,0,0; 12 zeros; a_3 = 1: 1,0,0; 0; 0; a_0 = -3: 1,1,1
+    \* bits: 1,0,0, 0 x 12, 1,0,0, 0,0, 1,1,1 -> 1 + 2^15 + 2^20 + 2^21 + 2^22
+    [] i = 804 -> wwNAFOk(<<32769, 112, 0, 0, 0>>, 17, <<5, 1>>, 3) /\ ~wwNAFOk(<<32769, 112, 0, 0, 0>>, 17, <<5, 1>>, 4)
+    \* ---- ring aliases, word comparisons, factor base, prime extension
+    [] i = 811 -> qrCmp(One, OfInt(4), OfInt(7), "mont", 16) = 1 /\ qrCmp(One, OfInt(4), OfInt(7), "plain", 16) = -1
+                  /\ Eq(MontR(OfInt(65521), 16), PowerOf2(16)) /\ Eq(MontR(AddInt(PowerOf2(16), 1), 16), PowerOf2(32))
+                  /\ gfpHalfOk(OfInt(4), One, OfInt(7)) /\ ~gfpHalfOk(OfInt(3), One, OfInt(7)) /\ ~gfpHalfOk(OfInt(11), One, OfInt(7))
+                  /\ qrIsUnity(One, OfInt(7)) /\ Eq(qrSubUnity(Zero, OfInt(7)), OfInt(6)) /\ Eq(qrAddUnity(OfInt(6), OfInt(7)), Zero)
+                  /\ gf2IsIn(<<128>>, 8) /\ ~gf2IsIn(<<256>>, 8) /\ gf2IsIn(<<65535, 0>>, 16) /\ zmIsIn(OfInt(6), OfInt(7)) /\ ~zmIsIn(OfInt(7), OfInt(7))
+    [] i = 812 -> WordCmpOk("Less", "0M", One, Two, 0, Sub2(PowerOf2(32), One), 32) /\ WordCmpOk("Less", "0M", Two, One, 0, Zero, 32)
+                  /\ ~WordCmpOk("Less", "01", One, Two, 0, Sub2(PowerOf2(32), One), 32) /\ WordCmpOk("Geq", "int", Two, Two, 1, Zero, 64)
+                  /\ WordCmpOk("Neq", "01", PowerOf2(63), Sub2(PowerOf2(63), One), 0, One, 64) /\ WordCmpName("Leq", "0M") = "wordLeq0M"
+                  /\ WordCmpName("Eq", "int") = "wordEq"
+    [] i = 813 -> priBaseModOk(<<0, 0, 0, 0, 11>>, OfInt(1155), 5, 1) /\ ~priBaseModOk(<<0, 0, 0, 0, 12>>, OfInt(1155), 5, 1)
+                  /\ priBaseModOk(<<>>, OfInt(1155), 0, 4) /\ BasePrime(1023) = 8167 /\ BasePrime(0) = 3
+    [] i = 814 -> priExtendOk(1, OfInt(7), 3, OfInt(3), One, TRUE) /\ priExtendOk(1, OfInt(13), 4, OfInt(3), Two, FALSE)
+                  /\ ~priExtendOk(1, OfInt(25), 5, OfInt(3), One, FALSE) /\ ~priExtendOk(1, OfInt(11), 4, OfInt(3), One, FALSE)
+                  /\ ~priExtendOk(0, Zero, 5, OfInt(3), One, TRUE) /\ priExtendOk(0, Zero, 5, OfInt(3), One, FALSE)
+                  /\ ~priExtendOk(1, OfInt(13), 5, OfInt(3), Two, FALSE)
+                  /\ zzRandModOk(1, OfInt(6), OfInt(7), TRUE, "seeded") /\ ~zzRandModOk(1, OfInt(7), OfInt(7), FALSE, "seeded")
+                  /\ ~zzRandModOk(1, Zero, OfInt(7), TRUE, "00") /\ zzRandModOk(0, OfInt(9), OfInt(7), TRUE, "FF") /\ ~zzRandModOk(0, Zero, OfInt(7), FALSE, "seeded")
     [] OTHER -> TRUE
 
 VecIds == (1..18) \cup (101..(100 + NB)) \cup (201..(200 + NB)) \cup (301..(300 + NB)) \cup (401..(400 + NB))
-          \cup {501, 502} \cup (601..623) \cup (701..707)
+          \cup {501, 502} \cup (601..623) \cup (701..707) \cup (801..804) \cup (811..814)
 
 VARIABLES phase, vid, ok
 VInit == phase = 0 /\ vid = 0 /\ ok = TRUE
